@@ -1,6 +1,8 @@
 """C06 - marshalled output is plain JSON-compatible data, freshly built; Literal non-members rejected."""
 from __future__ import annotations
 
+import copy
+
 import collections
 import datetime
 import enum
@@ -25,8 +27,8 @@ ASSUMPTIONS = [
     "'same on every call' is judged on the same live object in one process (set iteration order is stable there)",
 ]
 PLAN = {"quick": dict(programs=5000, depth=3, values=8), "thorough": dict(programs=40000, depth=5, values=14)}
-FLOORS = {"quick": {"compound_key_mappings": 2000, "suite_marshal_outputs_judged": 150, "suite_tests_passed": 1400, "marshal_checked": 100000, "subclass_values": 12000, "literal_nonmember_checked": 5000, "shapes": 5000},
-          "thorough": {"compound_key_mappings": 20000, "suite_marshal_outputs_judged": 150, "suite_tests_passed": 1400, "marshal_checked": 900000, "subclass_values": 150000, "literal_nonmember_checked": 30000, "shapes": 30000}}
+FLOORS = {"quick": {"literal_field_nonmembers": 400, "compound_key_mappings": 2000, "suite_marshal_outputs_judged": 150, "suite_tests_passed": 1400, "marshal_checked": 100000, "subclass_values": 12000, "literal_nonmember_checked": 5000, "shapes": 5000},
+          "thorough": {"literal_field_nonmembers": 8000, "compound_key_mappings": 20000, "suite_marshal_outputs_judged": 150, "suite_tests_passed": 1400, "marshal_checked": 900000, "subclass_values": 150000, "literal_nonmember_checked": 30000, "shapes": 30000}}
 
 
 class MyStr(str):
@@ -273,6 +275,39 @@ def run_case(sh, i, plan):
                     sh.count("compound_key_mappings")
                     sh.eval((msrc, "compound-key", canon(val, strict=True)))
                     check_output(sh, msrc, MT, val, prog, "compound-key")
+            # Literal membership of a FIELD: a structured value whose Literal-typed field holds a non-member is rejected as well
+            for st in [s_ for s_ in spec.walk() if s_.kind == "struct" and not isinstance(s_.t, str)][:3]:
+                lit_fields = [(fn_, fs_) for fn_, fs_, _d in st.info["fields"] if fs_.kind == "literal"]
+                if not lit_fields:
+                    continue
+                fname, fspec = rng.choice(lit_fields)
+                members = fspec.info["members"]
+                cands = [x for x in [0, 1, 2, True, False, None, "a", "1", "zzz", 1.0, 3, "", "True", -1, 77, "x y", "null"]
+                         if not any(type(m_) is type(x) and m_ == x for m_ in members)]
+                if not cands:
+                    continue
+                bad = rng.choice(cands)
+                try:
+                    inst = vg.value(st)
+                    if isinstance(inst, dict):
+                        inst = {**inst, fname: bad}
+                    elif hasattr(inst, "_replace"):
+                        inst = inst._replace(**{fname: bad})
+                    else:
+                        inst = copy.copy(inst)
+                        object.__setattr__(inst, fname, bad)
+                except Exception:  # noqa: BLE001
+                    continue
+                sh.count("literal_field_nonmembers")
+                try:
+                    with quiet():
+                        out = typelib.marshal(inst, t=st.t)
+                except ValueError:
+                    continue
+                except Exception as e:  # noqa: BLE001
+                    sh.violation("literal-nonmember-wrong-error", type_src=st.src, field=fname, value=repr(bad), exc=type(e).__name__, module_src=prog.source[-2000:])
+                    continue
+                sh.violation("literal-nonmember-emitted", type_src=st.src, field=fname, literal=fspec.src, value=repr(bad), output=short(out, 200), module_src=prog.source[-2000:])
             # Literal membership
             for lit in [s for s in spec.walk() if s.kind == "literal"][:2]:
                 members = lit.info["members"]
